@@ -6,7 +6,7 @@ from checks.c01 import gen_scripts, oracle_pass
 def run(tier, seed, replay=None):
     chk = Check('C03', tier, seed)
     chk.assumptions += [
-        'model TA_Model.v (see C01); capacity theorem holds for histories passing the guard desc_safeb, which the code does not enforce (K2): the full statement is refuted in Coq (C03_capacity_refuted) and on the implementation',
+        'model TA_Model.v (see C01); the capacity theorem holds without any guard for histories without reinstatement (the allocation refuses a slice the pools below cannot spare: repair of K2), and for reinstated grants passing the guard desc_safeb, which supply.Reserve does not check: that statement is refuted in Coq (C03_capacity_refuted)',
         'eligibility table cpu_prefs = cpuAllocationPreferences: compared on every (inputs, output) pair observed; inputs are the results of the policy\'s own annotation helpers (their parsing is C18/C14 territory)',
         'cpu.shares: told_shares compared with the cache value of every granted pinned container after every event',
     ]
